@@ -460,6 +460,7 @@ void run_typed(const Case& cs, const K& kernel, uint32_t dim) {
   if (f.compaction) vf::label("compaction");
   if (f.max_levels >= 3) vf::label("levels>=3");
   if (f.max_levels >= 6) vf::label("levels>=6");
+  if (f.max_levels >= 16) vf::label("levels>=16");
   if (f.merge_nonempty) vf::label("merge-nonempty");
   if (f.merge_est) vf::label("merge-of-compacted");
   if (f.merge_move) vf::label("merge-move");
@@ -534,11 +535,35 @@ rc::Gen<Case> gen_main() {
                    oplist(opg, 4, 0.8));
 }
 
+// deep level stacks: a kernel with negative values and tiny k, where a compaction can promote every point
+// (levels grow linearly with n), and the non-negative kernels with k = 2..4 for comparison (levels ~ log n)
+rc::Gen<Case> gen_deep() {
+  using namespace vf;
+  auto slot = range(0, 2);
+  auto sd = range(0, (1ll << 40));
+  auto opg = choose({
+      {6, op4("bulk", slot, range(100, 999), pick({0, 1, 1, 5}), sd)},
+      {2, op3("upd", slot, pick({0, 1, 2, 5}), sd)},
+      {4, op3("merge", slot, slot, range(0, 2))},
+      {2, op3("query", slot, range(0, 6), sd)},
+  });
+  return make_case({{"ty", range(0, 1)},
+                    {"kern", rc::gen::weightedOneOf<int64_t>({{3, pick({5, 10, 15, 20})}, {1, range(0, 4)}})},
+                    {"dim", range(1, 5)},
+                    {"k0", rc::gen::weightedOneOf<int64_t>({{2, range(2, 4)}, {1, range(20, 200)}})},
+                    {"k1", rc::gen::weightedOneOf<int64_t>({{2, range(2, 4)}, {1, range(8, 40)}})},
+                    {"k2", range(2, 3)}, {"k3", range(2, 4)},
+                    {"coin", pick({0, 1, 1, 2})},
+                    {"rnd", range(0, (1ll << 40))}},
+                   oplist(opg, 6, 0.3));
+}
+
 }  // namespace
 
 int main(int argc, char** argv) {
   std::vector<vf::Sub> subs;
   subs.push_back({"main", gen_main, prop, 1.0});
+  subs.push_back({"deep", gen_deep, prop, 0.04});
   return vf::main_driver(argc, argv, "C20", "c20_density",
                          "case = (T in {float,double}, kernel in {library Gaussian, user Laplace/const/box/scaled Gaussian/signed cos with a bandwidth}, dim 1..5, "
                          "k per sketch 2..300, coin = all 0 / all 1 / seeded, seed of the shuffle) + op history over 4 sketches and one of another dimension "
